@@ -326,4 +326,21 @@ VARIANTS = [
     V('C10', 'S', 'separator test of the dotted-name remainder restructured', SYS, "                elif rest and not p.endswith((os.path.sep, '/')):\n", "                elif rest and not (p.endswith(os.path.sep) or p.endswith('/')):\n"),
     V('C01', 'B', 'callable of a forwarding call taken as first child of the parent', 'jedi/inference/star_args.py',
       "    return infer_call_of_leaf(context, trailer.children[0], cut_own_trailer=True)", "    return context.infer_node(trailer.parent.children[0])", 'C01.j'),
+    # ------------------------------------------------------------------ rules written for the defects the triage agents confirmed
+    V('C13', 'B', 'metaclass data descriptor not asked first', GST, "    if obj is klass:\n        # For types the metaclass is what the class is for instances: A\n", "    if False:\n        # For types the metaclass is what the class is for instances: A\n", 'C13.d'),
+    V('C13', 'B', 'classmethod judged without unwrapping', ACC, "                attr = attr.__func__\n", "                pass\n", 'C13.d'),
+    V('C13', 'B', 'truth value asked of any type', ACC, "        if safe and type(self._obj) not in ALLOWED_BOOL_TYPES:", "        if safe and isinstance(self._obj, type):", 'C13.a'),
+    V('C13', 'S', 'truth value: the safe test nested', ACC, "        if safe and type(self._obj) not in ALLOWED_BOOL_TYPES:\n", "        if safe:\n          if type(self._obj) not in ALLOWED_BOOL_TYPES:\n"),
+    V('C13', 'B', 'a user type in the truth-value table', ACC, "tuple, dict, set, frozenset, range, type(None))", "tuple, dict, set, frozenset, range, type(None), object)", 'C13.d'),
+    V('C13', 'B', 'has_iter calls iter() again', ACC, "        return attr is not None\n\n    def is_allowed_getattr", "        iter(self._obj)\n        return attr is not None\n\n    def is_allowed_getattr", 'C13.a'),
+    V('C13', 'B', 'dict values through the bound method', ACC, "for v in dict.values(self._obj)]", "for v in self._obj.values()]", 'C13.g'),
+    V('C13', 'B', 'dir() of the object uncontained', ACC, "        try:\n            names = dir(self._obj)\n        except Exception:\n            # A custom __dir__ can raise anything, completions should not crash.\n            return []\n",
+      "        names = dir(self._obj)\n", 'C13.h'),
+    V('C13', 'S', 'dir() contained by a wider handler', ACC, "            names = dir(self._obj)\n        except Exception:", "            names = dir(self._obj)\n        except BaseException:"),
+    V('C08', 'B', 'cache node kept without the identity test', 'jedi/inference/filters.py', "                if self._parso_cache_node.node is not module_context.tree_node:", "                if False:", 'C08.f'),
+    V('C08', 'B', 'missing cache item not tolerated', 'jedi/inference/filters.py', "            except KeyError:\n                # Not every module with a path is cached by parso", "            except ZeroDivisionError:\n                # Not every module with a path is cached by parso", 'C08.f'),
+    V('C19', 'B', 'sys.path entry compared with the Path of the project', PRJ, "            if complete or p != str(self._path)", "            if complete or p != self._path", 'C19.g'),
+    V('C20', 'B', 'sys.path entry compared with the Path of the project', PRJ, "            if complete or p != str(self._path)", "            if complete or p != self._path", 'C20.f'),
+    V('C20', 'S', 'project path converted once', PRJ, "        sys_path = [\n            p for p in self._get_sys_path(inference_state)", "        own = str(self._path)\n        sys_path = [\n            p for p in self._get_sys_path(inference_state)"),
+    V('C01', 'B', 'dotted name of a stub used without a None test', IMP, "            python_file_io = folder_io.get_file_io(path.stem + '.py')", "            python_file_io = folder_io.get_file_io(import_names[-1] + '.py')", 'C01.k'),
 ]
